@@ -729,9 +729,17 @@ class DefTr:
                     return go('let %s := uAdd %s %s' % (f, f, self.name(call.args[0], loc)))
                 if meth == 'move' and len(call.args) == 2 and isinstance(call.args[1], ast.Name) and call.args[1].id == 'index':
                     return go('let %s ← uMove %s %s index' % (f, f, self.name(call.args[0], loc)))
+                if meth == 'remove' and len(call.args) == 1:
+                    return go('let %s ← uRemove %s %s' % (f, f, self.name(call.args[0], loc)))
             else:
                 if meth in ('add', 'discard') and len(call.args) == 1:
                     return go('let pairs := %s pairs %s' % ({'add': 'pAdd', 'discard': 'pDiscard'}[meth], self.pair(call.args[0], loc)))
+                if meth == 'difference_update' and len(call.args) == 1 and isinstance(call.args[0], ast.GeneratorExp):
+                    g = call.args[0]
+                    if len(g.generators) == 1 and not g.generators[0].ifs and isinstance(g.generators[0].target, ast.Name):
+                        v = g.generators[0].target.id
+                        src = self.namelist(g.generators[0].iter)
+                        return go('let pairs := pDifference pairs (%s.map fun %s => %s)' % (src, v, self.pair(g.elt, dict(loc, **{v: v}))))
                 if meth == 'update' and len(call.args) == 1 and isinstance(call.args[0], ast.GeneratorExp):
                     g = call.args[0]
                     if len(g.generators) == 1 and not g.generators[0].ifs and isinstance(g.generators[0].target, ast.Name):
@@ -771,13 +779,15 @@ def gen_defn():
         ('add_property', ['self', 'prop', 'objects'], '(prop : Name) (objects : List Name)', dict(names={'prop': 'prop'}, lists={'objects': 'objects'}, bools={})),
         ('set_object', ['self', 'obj', 'properties'], '(obj : Name) (properties : List Name)', dict(names={'obj': 'obj'}, lists={'properties': 'properties'}, bools={})),
         ('set_property', ['self', 'prop', 'objects'], '(prop : Name) (objects : List Name)', dict(names={'prop': 'prop'}, lists={'objects': 'objects'}, bools={})),
+        ('remove_object', ['self', 'obj'], '(obj : Name)', dict(names={'obj': 'obj'}, lists={}, bools={})),
+        ('remove_property', ['self', 'prop'], '(prop : Name)', dict(names={'prop': 'prop'}, lists={}, bools={})),
         ('union_update', ['self', 'other', 'ignore_conflicts'], '(other : Defn) (ignore_conflicts : Bool)', dict(names={}, lists={}, bools={})),
         ('intersection_update', ['self', 'other', 'ignore_conflicts'], '(other : Defn) (ignore_conflicts : Bool)', dict(names={}, lists={}, bools={})),
     ]
-    out = ['import FCA.Model.Defn',
+    out = ['import FCA.Model.DefnExtra',
            '/- GENERATED by harness/extract2.py from MutableMixin in concepts/definitions.py — do not edit.',
            '   Straight-line mutators, statement by statement, over the state (objs, props, pairs); `Unique` / `set` methods are the',
-           '   primitives of Model/Defn.lean (uAdd, uIor, uIand, uMove, uniq, pAdd, pDiscard), `ensure_compatible` is `conflicts`. -/',
+           '   primitives of Model/Defn.lean and Model/DefnExtra.lean (uAdd, uIor, uIand, uMove, uRemove, uniq, pAdd, pDiscard, pDifference), `ensure_compatible` is `conflicts`. -/',
            'namespace FCA.Generated', '']
     for name, args, params, kw in spec:
         m = _method(tree, 'MutableMixin', name)
